@@ -184,8 +184,17 @@ def t2(run, T):
     chain = find_nodes(it["body"], lambda n: n.get("k") == "let" and n["pat"].get("name") == "marker")
     kinds = []
     ok_chain = False
-    if chain and chain[0].get("init", {}).get("k") == "if":
-        e = chain[0]["init"]
+    sel_if = chain[0]["init"] if chain and chain[0].get("init", {}).get("k") == "if" else None
+    if sel_if is None:
+        # the selection moved into a helper of the file (`fn circle_marker(circle) -> Option<Marker>`): the one `if` chain
+        # of the file that starts with `.is_filled` and names Marker variants
+        _f, _v = src_file(run, "fragment/line.rs")
+        cands_ = find_nodes(_v, lambda n: n.get("k") == "if" and n["cond"].get("k") == "field" and n["cond"]["member"] == "is_filled" and
+                            find_nodes(n["then"], lambda m: m.get("k") == "path" and m["path"].startswith("Marker::"))) if _v else []
+        if len(cands_) == 1 and mc and any(Program.callee_name(t_).startswith("svgbob::") and "Marker" in str(prog.bodies.get(Program.callee_name(t_), {}).get("sig", "")) for _, t_ in prog.calls(mc)):
+            sel_if = cands_[0]
+    if sel_if is not None:
+        e = sel_if
         def variant(blk):
             v = find_nodes(blk, lambda n: n.get("k") == "path" and n["path"].startswith("Marker::"))
             return v[0]["path"].split("::")[-1] if v else None
